@@ -104,13 +104,14 @@ Section StatInv.
               keys_below (m_np (mstep s o)) x = true /\ veq (evalP (fst (wstep W vs s o)) x) (fst (stat W f))).
     { intros H. destruct (HI f x fx H) as [Hk Hv]. split; [exact (keys_below_mono _ _ x Hc Hk)|].
       rewrite (evalP_agree (fst vs) _ (m_np s) x Hk Hr). exact Hv. }
-    destruct o as [|g p|g]; cbn [mstep m_samples] in Hin.
+    destruct o as [|g p|g|g p gamma]; cbn [mstep m_samples] in Hin.
     - apply Hold, Hin.
     - apply in_app_or in Hin as [Hin|[Heq|[]]]; [apply Hold, Hin|discriminate Heq].
     - apply in_app_or in Hin as [Hin|[Heq|[]]]; [apply Hold, Hin|]. injection Heq as <- <- <-. split.
       + cbn [mstep m_np keys_below forallb]. rewrite andb_true_r. apply Nat.ltb_lt. lia.
       + cbn [wstep fst evalP]. rewrite upd_same, Q2R_one. intros w.
         rewrite inner_add_l, inner_scal_l, inner_zero_l. lra.
+    - apply in_app_or in Hin as [Hin|[Heq|[]]]; [apply Hold, Hin|discriminate Heq].
   Qed.
 
   Theorem stationary_samples_at_stat ops : forall s vs, SInv s vs -> SInv (mrun ops s) (wrun W ops s vs).
@@ -145,11 +146,15 @@ Section All.
     Variable xs : E.
     Hypothesis Hxs : veq (dgrad F xs) vzero.
     Hypothesis Hext : respects_veq F.
+    Variable hp : bool.
+    Variable res : R -> E -> E.
+    Hypothesis Hres : prox_spec (genuine_grad F) (dval F) hp res.
     Variable ops : list mop.
     Variable vs : (nat -> E) * (nat -> R).
     Hypothesis Hwf : mwf ops minit = true.
     Hypothesis Hnd : Forall op_nodup ops.
-    Let W := dfn_world F xs Hxs Hext.
+    Let W := dfn_world F xs Hxs Hext hp res Hres.
+    Hypothesis Hpx : prox_ok W ops = true.
     Let rho := fst (wrun W ops minit vs).
     Let phi := snd (wrun W ops minit vs).
 
@@ -157,7 +162,7 @@ Section All.
       0 < L -> smooth_convex_member L F -> Q2R qL = L ->
       all_satisfied rho phi (run_plan plan_SmoothConvexFunction (fstate_of (par_at 0 qL) (mrun ops minit) 0)).
     Proof.
-      intros HL HF HqL. destruct (run_state_genuine W (par_at 0 qL) ops vs 0 Hwf Hnd) as [Hst Hgen].
+      intros HL HF HqL. destruct (run_state_genuine W (par_at 0 qL) ops vs 0 Hwf Hpx Hnd) as [Hst Hgen].
       apply (c03_SmoothConvexFunction _ _ L F); assumption.
     Qed.
 
@@ -165,7 +170,7 @@ Section All.
       0 < L -> smooth_member L F -> Q2R qL = L ->
       all_satisfied rho phi (run_plan plan_SmoothFunction (fstate_of (par_at 0 qL) (mrun ops minit) 0)).
     Proof.
-      intros HL HF HqL. destruct (run_state_genuine W (par_at 0 qL) ops vs 0 Hwf Hnd) as [Hst Hgen].
+      intros HL HF HqL. destruct (run_state_genuine W (par_at 0 qL) ops vs 0 Hwf Hpx Hnd) as [Hst Hgen].
       apply (c03_SmoothFunction _ _ L F); assumption.
     Qed.
 
@@ -175,7 +180,7 @@ Section All.
         (run_plan plan_SmoothConvexLipschitzFunction (fstate_of (par_at2 0 qL 2 qM) (mrun ops minit) 0)).
     Proof.
       intros HL HM HF HqL HqM.
-      destruct (run_state_genuine W (par_at2 0 qL 2 qM) ops vs 0 Hwf Hnd) as [Hst Hgen].
+      destruct (run_state_genuine W (par_at2 0 qL 2 qM) ops vs 0 Hwf Hpx Hnd) as [Hst Hgen].
       apply (c03_SmoothConvexLipschitzFunction _ _ L M F); assumption.
     Qed.
 
@@ -198,7 +203,7 @@ Section All.
       all_satisfied rho phi (run_plan plan_RsiEbFunction (fstate_of (par_at2 0 qL 1 qmu) (mrun ops minit) 0)).
     Proof.
       intros HF HqL Hqmu Hin. set (par := par_at2 0 qL 1 qmu).
-      destruct (run_state_genuine W par ops vs 0 Hwf Hnd) as [Hst Hgen].
+      destruct (run_state_genuine W par ops vs 0 Hwf Hpx Hnd) as [Hst Hgen].
       pose proof (mstat_f_stat par ops 0 Hin) as Hne.
       apply (c03_RsiEbFunction _ _ mu L F); try assumption;
         rewrite (start_state_recorded _ _ Hne); try assumption.
@@ -216,11 +221,15 @@ Section All.
     Variable xs : E.
     Hypothesis Hxs : subgrad F xs vzero.
     Hypothesis Hext : fn_respects_veq F.
+    Variable hp : bool.
+    Variable res : R -> E -> E.
+    Hypothesis Hres : prox_spec (genuine_sub F) (val F) hp res.
     Variable ops : list mop.
     Variable vs : (nat -> E) * (nat -> R).
     Hypothesis Hwf : mwf ops minit = true.
     Hypothesis Hnd : Forall op_nodup ops.
-    Let W := fn_world F sel Hsel xs Hxs Hext.
+    Let W := fn_world F sel Hsel xs Hxs Hext hp res Hres.
+    Hypothesis Hpx : prox_ok W ops = true.
     Let rho := fst (wrun W ops minit vs).
     Let phi := snd (wrun W ops minit vs).
 
@@ -228,7 +237,7 @@ Section All.
       0 <= M -> lipschitz_fn M F -> Q2R qM = M ->
       all_satisfied rho phi (run_plan plan_ConvexLipschitzFunction (fstate_of (par_at 2 qM) (mrun ops minit) 0)).
     Proof.
-      intros HM HF HqM. destruct (run_state_genuine W (par_at 2 qM) ops vs 0 Hwf Hnd) as [Hst Hgen].
+      intros HM HF HqM. destruct (run_state_genuine W (par_at 2 qM) ops vs 0 Hwf Hpx Hnd) as [Hst Hgen].
       apply (c03_ConvexLipschitzFunction _ _ M F); assumption.
     Qed.
 
@@ -239,7 +248,7 @@ Section All.
       all_satisfied rho phi (run_plan plan_ConvexQGFunction (fstate_of (par_at 0 qL) (mrun ops minit) 0)).
     Proof.
       intros HL HF HqL Hin. set (par := par_at 0 qL).
-      destruct (run_state_genuine W par ops vs 0 Hwf Hnd) as [Hst Hgen].
+      destruct (run_state_genuine W par ops vs 0 Hwf Hpx Hnd) as [Hst Hgen].
       pose proof (mstat_f_stat par ops 0 Hin) as Hne.
       apply (c03_ConvexQGFunction_recorded _ _ L F); try assumption.
       intros sm Hsm. destruct (f_stat_at_stat W par ops vs 0 sm Hsm) as (Hp & Hg & _).
@@ -255,6 +264,9 @@ Section All.
     Variable xs : E.
     Hypothesis Hxs : subgrad F xs vzero.
     Hypothesis Hext : fn_respects_veq F.
+    Variable hp : bool.
+    Variable res : R -> E -> E.
+    Hypothesis Hres : prox_spec (genuine_sub F) (val F) hp res.
 
     (** genuine provided the point is in the domain *)
     Definition pgen (t : E * E * R) : Prop := dom F (fst (fst t)) -> genuine_sub F t.
@@ -274,12 +286,15 @@ Section All.
 
     Definition pfn_world : @world E :=
       mkW (fun _ x => (sel x, val F x)) (fun _ t => pgen t) (fun _ => (xs, val F xs))
-          pfn_orc_genuine pfn_stat_genuine pfn_gen_veq pfn_gen_xveq.
+          pfn_orc_genuine pfn_stat_genuine pfn_gen_veq pfn_gen_xveq
+          (fun _ => hp) (fun _ => res) (fun _ gamma x0 => val F (res gamma x0))
+          (fun _ gamma x0 H Hg _ => Hres H gamma x0 Hg).
 
     Variable ops : list mop.
     Variable vs : (nat -> E) * (nat -> R).
     Hypothesis Hwf : mwf ops minit = true.
     Hypothesis Hnd : Forall op_nodup ops.
+    Hypothesis Hpx : prox_ok pfn_world ops = true.
     Let rho := fst (wrun pfn_world ops minit vs).
     Let phi := snd (wrun pfn_world ops minit vs).
 
@@ -291,7 +306,7 @@ Section All.
       evaluated_in_dom par ->
       forall sm, In sm (f_points (fstate_of par (mrun ops minit) 0)) -> genuine_sub F (sval rho phi sm).
     Proof.
-      intros Hdom sm Hsm. destruct (run_state_genuine pfn_world par ops vs 0 Hwf Hnd) as [_ Hgen].
+      intros Hdom sm Hsm. destruct (run_state_genuine pfn_world par ops vs 0 Hwf Hpx Hnd) as [_ Hgen].
       exact (Hgen sm Hsm (Hdom sm Hsm)).
     Qed.
 
@@ -299,7 +314,7 @@ Section All.
       0 <= mu -> strongly_convex_member mu F -> Q2R qmu = mu -> evaluated_in_dom (par_at 1 qmu) ->
       all_satisfied rho phi (run_plan plan_StronglyConvexFunction (fstate_of (par_at 1 qmu) (mrun ops minit) 0)).
     Proof.
-      intros Hmu HF Hq Hdom. destruct (run_state_genuine pfn_world (par_at 1 qmu) ops vs 0 Hwf Hnd) as [Hst _].
+      intros Hmu HF Hq Hdom. destruct (run_state_genuine pfn_world (par_at 1 qmu) ops vs 0 Hwf Hpx Hnd) as [Hst _].
       apply (c03_StronglyConvexFunction _ _ mu F); try assumption. apply pfn_genuine, Hdom.
     Qed.
 
@@ -310,7 +325,7 @@ Section All.
       all_satisfied rho phi
         (run_plan plan_ConvexIndicatorFunction (set_inf (inf_flag 3 D) (fstate_of (par_at 3 qD) (mrun ops minit) 0))).
     Proof.
-      intros HF Hq Hdom. destruct (run_state_genuine pfn_world (par_at 3 qD) ops vs 0 Hwf Hnd) as [Hst _].
+      intros HF Hq Hdom. destruct (run_state_genuine pfn_world (par_at 3 qD) ops vs 0 Hwf Hpx Hnd) as [Hst _].
       apply (c03_ConvexIndicatorFunction _ _ D F); try assumption.
       - destruct D as [d|]; cbn; [split; [reflexivity|exact (Hq d eq_refl)]|reflexivity].
       - apply pfn_genuine, Hdom.
@@ -329,6 +344,9 @@ Section All.
     Hypothesis Hxs : sigma xs = 0.
     Hypothesis HCext : forall g g' : E, veq g g' -> C g -> C g'.
     Hypothesis Hsext : forall x x' : E, veq x x' -> sigma x = sigma x'.
+    Variable hp : bool.
+    Variable res : R -> E -> E.
+    Hypothesis Hres : prox_spec (genuine_support C sigma) sigma hp res.
 
     Lemma sup_orc_genuine (f : nat) (x : E) : genuine_support C sigma (x, sel x, sigma x).
     Proof. destruct (Hsel x). repeat split; assumption. Qed.
@@ -346,15 +364,17 @@ Section All.
 
     Definition support_world : @world E :=
       mkW (fun _ x => (sel x, sigma x)) (fun _ t => genuine_support C sigma t) (fun _ => (xs, sigma xs))
-          sup_orc_genuine sup_stat_genuine sup_gen_veq sup_gen_xveq.
+          sup_orc_genuine sup_stat_genuine sup_gen_veq sup_gen_xveq
+          (fun _ => hp) (fun _ => res) (fun _ gamma x0 => sigma (res gamma x0))
+          (fun _ gamma x0 H Hg => Hres H gamma x0 Hg).
 
     Theorem run_satisfies_convex_support (M : option R) (qM : Q) ops vs :
       support_member M C sigma -> (forall m, M = Some m -> Q2R qM = m) ->
-      mwf ops minit = true -> Forall op_nodup ops ->
+      mwf ops minit = true -> Forall op_nodup ops -> prox_ok support_world ops = true ->
       all_satisfied (fst (wrun support_world ops minit vs)) (snd (wrun support_world ops minit vs))
         (run_plan plan_ConvexSupportFunction (set_inf (inf_flag 2 M) (fstate_of (par_at 2 qM) (mrun ops minit) 0))).
     Proof.
-      intros HF Hq Hwf Hnd. destruct (run_state_genuine support_world (par_at 2 qM) ops vs 0 Hwf Hnd) as [Hst Hgen].
+      intros HF Hq Hwf Hnd Hpx. destruct (run_state_genuine support_world (par_at 2 qM) ops vs 0 Hwf Hpx Hnd) as [Hst Hgen].
       apply (c03_ConvexSupportFunction _ _ M C sigma); try assumption.
       destruct M as [m|]; cbn; [split; [reflexivity|exact (Hq m eq_refl)]|reflexivity].
     Qed.
@@ -371,6 +391,10 @@ Section All.
     Variable xs : E.
     Hypothesis Hxs : A xs vzero.
     Hypothesis Hext : graph_respects_veq A.
+    (* optionally: the resolvent of A, A (res gamma x0) ((x0 - res gamma x0) / gamma) *)
+    Variable hp : bool.
+    Variable res : R -> E -> E.
+    Hypothesis Hres : prox_spec (genuine_op A) (fun _ => 0) hp res.
 
     Lemma graph_orc_genuine (f : nat) (x : E) : genuine_op A (x, T x, 0).
     Proof. apply HT. Qed.
@@ -383,17 +407,20 @@ Section All.
 
     Definition graph_world : @world E :=
       mkW (fun _ x => (T x, 0)) (fun _ t => genuine_op A t) (fun _ => (xs, 0))
-          graph_orc_genuine graph_stat_genuine graph_gen_veq graph_gen_xveq.
+          graph_orc_genuine graph_stat_genuine graph_gen_veq graph_gen_xveq
+          (fun _ => hp) (fun _ => res) (fun _ _ _ => 0)
+          (fun _ gamma x0 H Hg => Hres H gamma x0 Hg).
 
     Variable ops : list mop.
     Variable vs : (nat -> E) * (nat -> R).
     Hypothesis Hwf : mwf ops minit = true.
     Hypothesis Hnd : Forall op_nodup ops.
+    Hypothesis Hpx : prox_ok graph_world ops = true.
     Let rho := fst (wrun graph_world ops minit vs).
     Let phi := snd (wrun graph_world ops minit vs).
 
     Ltac compose par thm :=
-      destruct (run_state_genuine graph_world par ops vs 0 Hwf Hnd) as [Hst Hgen];
+      destruct (run_state_genuine graph_world par ops vs 0 Hwf Hpx Hnd) as [Hst Hgen];
       eapply thm; try eassumption.
 
     Theorem run_satisfies_monotone :
@@ -447,6 +474,10 @@ Section All.
   Section Lin.
     Variable M : E -> E.
     Hypothesis HM : linear M.
+    (* optionally: the resolvent (I + gamma M)^-1 *)
+    Variable hp : bool.
+    Variable res : R -> E -> E.
+    Hypothesis Hres : prox_spec (genuine_lin M) (fun _ => 0) hp res.
 
     Lemma lin_orc_genuine (f : nat) (x : E) : genuine_lin M (x, M x, 0).
     Proof. apply veq_refl. Qed.
@@ -459,12 +490,15 @@ Section All.
 
     Definition lin_world : @world E :=
       mkW (fun _ x => (M x, 0)) (fun _ t => genuine_lin M t) (fun _ => (vzero, 0))
-          lin_orc_genuine lin_stat_genuine lin_gen_veq lin_gen_xveq.
+          lin_orc_genuine lin_stat_genuine lin_gen_veq lin_gen_xveq
+          (fun _ => hp) (fun _ => res) (fun _ _ _ => 0)
+          (fun _ gamma x0 H Hg => Hres H gamma x0 Hg).
 
     Variable ops : list mop.
     Variable vs : (nat -> E) * (nat -> R).
     Hypothesis Hwf : mwf ops minit = true.
     Hypothesis Hnd : Forall op_nodup ops.
+    Hypothesis Hpx : prox_ok lin_world ops = true.
     Let rho := fst (wrun lin_world ops minit vs).
     Let phi := snd (wrun lin_world ops minit vs).
 
@@ -472,7 +506,7 @@ Section All.
       sa_bounded mu L M -> Q2R qL = L -> Q2R qmu = mu ->
       all_satisfied rho phi (run_plan plan_SymmetricLinearOperator (fstate_of (par_at2 0 qL 1 qmu) (mrun ops minit) 0)).
     Proof.
-      intros HQ HqL Hqmu. destruct (run_state_genuine lin_world (par_at2 0 qL 1 qmu) ops vs 0 Hwf Hnd) as [Hst Hgen].
+      intros HQ HqL Hqmu. destruct (run_state_genuine lin_world (par_at2 0 qL 1 qmu) ops vs 0 Hwf Hpx Hnd) as [Hst Hgen].
       apply (c03_SymmetricLinearOperator _ _ mu L M); assumption.
     Qed.
 
@@ -480,7 +514,7 @@ Section All.
       skew_bounded L M -> Q2R qL = L ->
       all_satisfied rho phi (run_plan plan_SkewSymmetricLinearOperator (fstate_of (par_at 0 qL) (mrun ops minit) 0)).
     Proof.
-      intros HA HqL. destruct (run_state_genuine lin_world (par_at 0 qL) ops vs 0 Hwf Hnd) as [Hst Hgen].
+      intros HA HqL. destruct (run_state_genuine lin_world (par_at 0 qL) ops vs 0 Hwf Hpx Hnd) as [Hst Hgen].
       apply (c03_SkewSymmetricLinearOperator _ _ L M); assumption.
     Qed.
   End Lin.
@@ -502,18 +536,24 @@ Section All.
     Lemma pick_linear f : linear (pick f).
     Proof. unfold pick. destruct (Nat.eqb f 0); assumption. Qed.
 
+    (* no proximal operator in this world: programs contain no proximal step ([prox_ok]) *)
+    Lemma lin2_prox_genuine (f : nat) (gamma : R) (x0 : E) :
+      false = true -> 0 < gamma -> genuine_lin (pick f) (x0, vscal (1 / gamma) (vsub x0 x0), 0).
+    Proof. discriminate. Qed.
+
     Definition lin2_world : @world E :=
       mkW (fun f x => (pick f x, 0)) (fun f t => genuine_lin (pick f) t) (fun _ => (vzero, 0))
           (fun f => lin_orc_genuine (pick f) f) (fun f => lin_stat_genuine (pick f) (pick_linear f) f)
-          (fun f => lin_gen_veq (pick f) f) (fun f => lin_gen_xveq (pick f) (pick_linear f) f).
+          (fun f => lin_gen_veq (pick f) f) (fun f => lin_gen_xveq (pick f) (pick_linear f) f)
+          (fun _ => false) (fun _ _ x0 => x0) (fun _ _ _ => 0) lin2_prox_genuine.
 
     Theorem run_satisfies_linear (L : R) (qL : Q) ops vs :
       bounded_pair L M Mt -> Q2R qL = L ->
-      mwf ops minit = true -> Forall op_nodup ops ->
+      mwf ops minit = true -> Forall op_nodup ops -> prox_ok lin2_world ops = true ->
       all_satisfied (fst (wrun lin2_world ops minit vs)) (snd (wrun lin2_world ops minit vs))
         (run_plan plan_LinearOperator (fstate_of2 (par_at 0 qL) (mrun ops minit) 0 1)).
     Proof.
-      intros HB HqL Hwf Hnd.
+      intros HB HqL Hwf Hnd Hpx.
       set (rho := fst (wrun lin2_world ops minit vs)). set (phi := snd (wrun lin2_world ops minit vs)).
       assert (Hs : forall f uid sm, In sm (to_samples uid (samples_of f (mrun ops minit))) ->
                 wf_sample sm /\ genuine_lin (pick f) (sval rho phi sm)).
@@ -521,7 +561,7 @@ Section All.
         destruct (recorded_nodup ops minit Hnd (fun _ _ (H : In _ []) => match H with end) f t Ht) as (N1 & N2 & N3).
         split.
         - unfold wf_sample. rewrite Ex, Eg, Ef. auto.
-        - pose proof (proj2 (world_samples_genuine_init lin2_world ops vs Hwf f t Ht)) as G.
+        - pose proof (proj2 (world_samples_genuine_init lin2_world ops vs Hwf Hpx f t Ht)) as G.
           destruct t as [[x g] fx]. cbn [fst snd] in *. unfold sval, px, pg, pf. rewrite Ex, Eg, Ef. exact G. }
       apply (c03_LinearOperator rho phi L M Mt); try assumption.
       - unfold wf_state. cbn [fstate_of2 f_points f_stat f_tpoints f_v]. split; [|split; [|split]].
